@@ -121,12 +121,12 @@ Proof.
 Qed.
 
 (* the lexer's own rule differs from validity only by a leading raw line terminator *)
-Lemma lexer_ok_cases body :
-  sl_quoted_body_lexer_ok body = true ->
+Lemma lexer_ok_old_cases body :
+  sl_quoted_body_lexer_ok_old body = true ->
   sl_quoted_body_valid body = true \/
   (exists c r, body = c :: r /\ sl_line_terminator c = true /\ sl_quoted_body_valid r = true).
 Proof.
-  unfold sl_quoted_body_lexer_ok, sl_quoted_body_valid. destruct body as [|c r]; [auto|].
+  unfold sl_quoted_body_lexer_ok_old, sl_quoted_body_valid. destruct body as [|c r]; [auto|].
   cbn [sl_lexq]. intros H.
   destruct (c =? c_quote); [discriminate|].
   destruct (sl_line_terminator c) eqn:Hlt.
@@ -135,17 +135,27 @@ Proof.
   - left. exact H.
 Qed.
 
-Lemma lexer_ok_not_leading body :
-  sl_quoted_body_lexer_ok body = true -> sl_leading_line_terminator body = false -> sl_quoted_body_valid body = true.
+Lemma lexer_ok_old_not_leading body :
+  sl_quoted_body_lexer_ok_old body = true -> sl_leading_line_terminator body = false -> sl_quoted_body_valid body = true.
 Proof.
-  intros H Hl. destruct (lexer_ok_cases _ H) as [|[c [r [-> [Hlt _]]]]]; [assumption|].
+  intros H Hl. destruct (lexer_ok_old_cases _ H) as [|[c [r [-> [Hlt _]]]]]; [assumption|].
   cbn in Hl. congruence.
 Qed.
 
-Lemma valid_lexer_ok body : sl_quoted_body_valid body = true -> sl_quoted_body_lexer_ok body = true.
+Lemma valid_lexer_ok_old body : sl_quoted_body_valid body = true -> sl_quoted_body_lexer_ok_old body = true.
 Proof.
-  unfold sl_quoted_body_lexer_ok, sl_quoted_body_valid. destruct body as [|c r]; [auto|].
+  unfold sl_quoted_body_lexer_ok_old, sl_quoted_body_valid. destruct body as [|c r]; [auto|].
   cbn [sl_lexq]. destruct (c =? c_quote); [auto|]. destruct (sl_line_terminator c); [discriminate|auto].
+Qed.
+
+(* since the repair the lexer's rule IS validity *)
+Lemma lexer_ok_eq_valid body : sl_quoted_body_lexer_ok body = sl_quoted_body_valid body.
+Proof.
+  unfold sl_quoted_body_lexer_ok, sl_quoted_body_valid. destruct body as [|c r]; [reflexivity|].
+  cbn [sl_lexq]. destruct (c =? c_quote); [reflexivity|].
+  destruct (sl_line_terminator c) eqn:Hlt; [|reflexivity].
+  unfold sl_line_terminator, c_lf, c_cr in Hlt.
+  replace (c =? c_bslash) with false by (unfold c_bslash; lia). reflexivity.
 Qed.
 
 Theorem quoted_decodes body :
@@ -155,7 +165,17 @@ Proof. apply quoted_valid_decodes. Qed.
 Theorem quoted_no_panic body :
   sl_quoted_body_lexer_ok body = true -> exists v, su_unescape_string body = SuOk v.
 Proof.
-  intros H. destruct (lexer_ok_cases _ H) as [Hv|[c [r [-> [Hlt Hv]]]]].
+  rewrite lexer_ok_eq_valid. intros Hv. destruct (quoted_decodes _ Hv) as [v [E _]]. eauto.
+Qed.
+
+Theorem quoted_lexer_decodes body :
+  sl_quoted_body_lexer_ok body = true -> exists v, su_unescape_string body = SuOk v /\ StringChars body v.
+Proof. rewrite lexer_ok_eq_valid. apply quoted_decodes. Qed.
+
+Theorem quoted_old_no_panic body :
+  sl_quoted_body_lexer_ok_old body = true -> exists v, su_unescape_string body = SuOk v.
+Proof.
+  intros H. destruct (lexer_ok_old_cases _ H) as [Hv|[c [r [-> [Hlt Hv]]]]].
   - destruct (quoted_decodes _ Hv) as [v [E _]]. eauto.
   - destruct (quoted_decodes _ Hv) as [v [E _]]. exists (c :: v).
     unfold su_unescape_string in *. cbn [su_unescape_go].
